@@ -76,6 +76,13 @@ static inline uint32_t get_max_input_length(void) { return g_max_input_length; }
 #define AGG_HAS_PASS_OLD(u) (__CPROVER_old((u)->components.host_start) > __CPROVER_old((u)->components.username_end))
 #define AGG_HOST_EMPTY_OLD(u) (__CPROVER_old((u)->components.host_start) == __CPROVER_old((u)->components.host_end))
 #define AGG_HAS_CRED(u) (AGG_HAS_USER(u) || AGG_HAS_PASS(u))
+/* record-level facts of an aggregator stated on offsets only (usable with abstract editors): number of host bytes, and the C19
+ * invariant "no credentials and no port on a URL whose host is null or empty or whose scheme is file" (FILE = 6, checked against the
+ * dumped enumerator in the harness) */
+#define AGG_HOST_LEN(u) ((u)->components.host_end - (u)->components.host_start - (AGG_HAS_CRED(u) ? 1u : 0u))
+#define AGG_HOST_NONEMPTY(u) ((u)->components.host_end > (u)->components.host_start + (AGG_HAS_CRED(u) ? 1u : 0u))
+#define AGG_REC(u) ((!AGG_HAS_CRED(u) && (u)->components.port == OMITTED) || (AGG_HOST_NONEMPTY(u) && (u)->base.type != 6))
+#define AGG_CRED_KEPT(u) (AGG_HAS_USER(u) == AGG_HAS_USER_OLD(u) && AGG_HAS_PASS(u) == AGG_HAS_PASS_OLD(u))
 static inline _Bool agg_eqv(struct url_aggregator a, struct url_aggregator b) {
   if (a.base.is_valid != b.base.is_valid || a.base.has_opaque_path != b.base.has_opaque_path || a.base.host_type != b.base.host_type || a.base.type != b.base.type) return 0;
   if (a.components.protocol_end != b.components.protocol_end || a.components.username_end != b.components.username_end || a.components.host_start != b.components.host_start ||
